@@ -394,7 +394,10 @@ impl Doc {
 
     #[cfg(feature = "autocomplete")]
     pub(crate) fn to_completion(&self) -> Option<String> {
-        let mut s = self.first_line()?.monochrome(false);
+        // completion protocols are line based: never wrap
+        let mut s = self
+            .first_line()?
+            .render_console(false, Color::Monochrome, usize::MAX / 2);
         s.truncate(s.trim_end().len());
         Some(s)
     }
